@@ -366,6 +366,10 @@ htp_status_t htp_connp_REQ_CONNECT_PROBE_DATA(htp_connp_t *connp) {
 #ifdef HTP_DEBUG
         fprint_raw_data(stderr, "htp_connp_REQ_CONNECT_PROBE_DATA: tunnel contains plain text HTTP", data, len);
 #endif
+        // The probed bytes were only looked at. Give them back: when the probe
+        // stopped at the end of the chunk (its length cap) nothing else would
+        // buffer them, and the start of the tunnelled request would be lost.
+        connp->in_current_read_offset = connp->in_current_consume_offset;
         return htp_tx_state_request_complete(connp->in_tx);
     } else {
 #ifdef HTP_DEBUG
